@@ -176,7 +176,13 @@ def step (st : DSt) (line : String) : DSt × String :=
               let q : Spec.C06.Req := ⟨req, keep == "1", rc == "1", aborted⟩
               if kerr == "1" then boolStr (orecs.isEmpty && next == req) else
               if Spec.C06.holds q (log.take nwhole) (log.drop nwhole) (orecs.map (·.1)) next then "1"
-              else if (orecs.map (·.1)) != Spec.C06.refRecords q (log.take nwhole) then "0:records-differ-from-reference"
+              else if (orecs.map (·.1)) != Spec.C06.refRecords q (log.take nwhole) then
+                -- stable key of the reported departure: a v1 compressed wrapper marked LogAppendTime (inner timestamps
+                -- and timestamp type returned instead of the wrapper's)
+                (if items.any (fun it => match it with
+                    | .msg m _ => m.isV1 && m.attrs % 4 != 0 && m.attrs / 8 % 2 == 1
+                    | _ => false)
+                 then "0:v1-wrapper-logappendtime-timestamp" else "0:records-differ-from-reference")
               else "0:next-offset"
           | _, _ => "0:unparsable-output"
         | _ => "0:unparsable-output"
